@@ -250,6 +250,11 @@ var sharedPool = []sharedRule{
 	{"bundle-id-never-reset", func(c *Ctx, r string) { checkBundleIDNeverReset(c, r) }},
 	{"trygo-handled", func(c *Ctx, r string) { checkTryGoHandled(c, r, "pkg/core", "pkg/cafs") }},
 	{"stages-forward-errors", func(c *Ctx, r string) { checkStagesForwardErrors(c, r) }},
+	{"leaf-loop-shape", func(c *Ctx, r string) { checkLeafReadLoopShape(c, r) }},
+	{"readat-loop-shape", func(c *Ctx, r string) { checkReadAtLoopShape(c, r) }},
+	{"prefetch-handoff", func(c *Ctx, r string) { checkPrefetchHandoff(c, r) }},
+	{"writer-write-shape", func(c *Ctx, r string) { checkWriterWriteShape(c, r) }},
+	{"writer-flush-shape", func(c *Ctx, r string) { checkWriterFlushShape(c, r) }},
 	{"effects", func(c *Ctx, r string) {
 		checkEffectDominance(c, r, "pkg/cafs", "pkg/core", "pkg/fuse", "pkg/storage/localfs", "pkg/wal", "pkg/filetracker")
 	}},
